@@ -60,8 +60,32 @@ func (l *vpSQLLog) count(what string) int {
 // commit): every statement runs between Begin and Commit/Rollback of the same
 // transaction; a failure => no later statement, Rollback, no Commit, non-nil
 // error; no failure => exactly one Commit; nothing to insert => no transaction.
+// vpNativeTx is set by the native test build: the atomicity/idempotence scenario on the real store.
+var vpNativeTx func(k int, nsets int, ntags []int, preexisting []bool) string
+
 func vpH_C14_tx() {
 	if !vpSymbolic() {
+		// native replay: the same fault point and batch shape against the real SQLite store
+		// through a fault-injecting driver; the statement's atomicity and idempotence clauses
+		// are checked on real query answers
+		k := vpInt("fault-at")
+		nsets := vpChoice("nsets", 3)
+		ntags := make([]int, nsets)
+		pre := make([]bool, nsets)
+		for i := 0; i < nsets; i++ {
+			ntags[i] = vpChoice("ntags", 3)
+			vpChoice("nkeys", 2)
+			vpChoice("nids", 2)
+		}
+		for i := 0; i < nsets; i++ {
+			pre[i] = !vpBool("affected")
+		}
+		if vpNativeTx != nil && nsets > 0 {
+			if why := vpNativeTx(k, nsets, ntags, pre); why != "" {
+				vpNote(why)
+				vpAssert(false, vpReplayLabel("C14.failure-rolls-back"))
+			}
+		}
 		vpReach("end")
 		return
 	}
